@@ -281,6 +281,12 @@ def Method.clientMethodName (m : Method) : List Char :=
   let n := if isKeyword m.name then m.name ++ ['_'] else m.name
   if m.internal then makePrivate n else n
 
+/-- The python methods the sync client template (`client.py.j2`) emits for one RPC, as (stem, suffix): the emitted name
+is `snake_case(stem) ++ suffix`.  Every RPC has the method named by `client_method_name`; an extended-operation RPC
+(`method.operation_service`) has the `_unary` twin as well, ALSO named from `client_method_name`. -/
+def Method.surfaceNames (m : Method) : List (List Char × List Char) :=
+  (m.clientMethodName, []) :: (if m.ext.isSome then [(m.clientMethodName, "_unary".toList)] else [])
+
 /-- `Service.is_internal` -/
 def Service.isInternal (s : Service) : Bool := s.methods.any (·.internal)
 
